@@ -45,10 +45,17 @@ class ProbeBase(RulePlugin):
             plugin_fix_level=int(cfg.get("level", 0)),
         )
 
+    def _note(self, action):
+        calls = getattr(builtins, "__pmsim_calls__", None)
+        if calls is not None:
+            calls.append([self.PID, action])
+
     def starting_new_file(self):
+        self._note("starting_new_file")
         self._pending_heading = None
 
     def next_token(self, context, token):
+        self._note("next_token")
         if getattr(token, "is_atx_heading", False):
             self._pending_heading = token if token.hash_count == 1 else None
             return
@@ -61,6 +68,7 @@ class ProbeBase(RulePlugin):
                 self.report_next_token_error(context, heading)
 
     def next_line(self, context, line):
+        self._note("next_line")
         if line == LINE_MARK:
             if context.in_fix_mode:
                 context.set_current_fix_line(LINE_FIXED)
@@ -68,4 +76,5 @@ class ProbeBase(RulePlugin):
                 self.report_next_line_error(context, 1)
 
     def completed_file(self, context):
+        self._note("completed_file")
         self._pending_heading = None
